@@ -349,7 +349,10 @@ def main():
         for o in r["out_records"]:
             srcs = [x for x in r.get("src_records", []) if x["code"] == o["code"] and x["outs"] == o["outs"]]
             if len(srcs) == 1:
-                same_reqs.append(f"c16same {srcs[0]['canon']} {o['canon']}")
+                al = c16_lib.alias_tokens(r.get("src_records", []), srcs[0], o)
+                if al:
+                    ck.count("cpu_op_reads_bypassed_tensor")
+                same_reqs.append(" ".join([f"c16same {srcs[0]['canon']} {o['canon']}"] + al))
                 same_meta.append((r, srcs[0], o))
     changed = [(m, a) for m, a in zip(same_meta, ck.model(same_reqs)) if a != "1"]
     ck.count("cpu_ops_compared_with_source", len(same_reqs))
@@ -474,6 +477,15 @@ def replay(ck, path):
                 if ck.model([f"c16judge {doc.split(' ')[0]} {obs}"], parallel=False)[0] != "1":
                     print(f"    observed {obs}: DISAGREES with the report")
                     bad = True
+            outs_rec = [x for x in c16_lib.op_records(r["out_model"]) if not (x["code"] == 32 and x["custom"] == "ethos-u")]
+            for o in outs_rec:
+                for so in [x for x in r.get("src_records", []) if x["code"] == o["code"] and x["outs"] == o["outs"]]:
+                    al = c16_lib.alias_tokens(r.get("src_records", []), so, o)
+                    same = ck.model([" ".join([f"c16same {so['canon']} {o['canon']}"] + al)], parallel=False)[0] == "1"
+                    print(f"  CPU operator {o['code']} -> {o['outs']}: {'unchanged' if same else 'CHANGED'}\n    source {so['canon']}\n    output {o['canon']}")
+                    if al:
+                        print("    input substitutions (chains in the source graph):", al)
+                    bad = bad or not same
             m = re.search(r"CPU operators = (\d+)", r["stdout"])
             print("  console:", m.group(0) if m else "no summary")
     else:
